@@ -808,5 +808,68 @@ fn main() {
         },
     );
 
+    // ---- entries whose VALUE is null / empty: a stored key is found whatever its value
+    #[derive(Clone, Debug, Hash, Serialize, Deserialize)]
+    struct NullCase {
+        class: usize,
+        stored_rep: usize,
+        probe_rep: usize,
+        /// value expression
+        value: String,
+        /// 0 literal, 1 map.set, 2 map.merge, 3 map-merge (other first), 4 nested one level
+        build: u8,
+    }
+    let mut nc = Vec::new();
+    for (ci, c) in CLASSES.iter().enumerate() {
+        for sr in 0..c.reps.len() {
+            for pr in 0..c.reps.len() {
+                for v in ["null", "()", "(null null)", "1"] {
+                    for b in 0..5u8 {
+                        nc.push(NullCase { class: ci, stored_rep: sr, probe_rep: pr, value: v.to_string(), build: b });
+                    }
+                }
+            }
+        }
+    }
+    ck.run(
+        "null-valued-entries",
+        "every key class x stored representation x probe representation x value {null, (), (null null), 1} x 5 ways to build the map",
+        nc.into_iter(),
+        |c: &NullCase| {
+            let ks = key(c.class, c.stored_rep);
+            let kp = key(c.class, c.probe_rep);
+            let v = &c.value;
+            let build = match c.build {
+                0 => format!("({ks}: {v}, zz: 1)"),
+                1 => format!("map.set((zz: 1), {ks}, {v})"),
+                2 => format!("map.merge((zz: 1), ({ks}: {v}))"),
+                3 => format!("map-merge(({ks}: 7), ({ks}: {v}, zz: 1))"),
+                _ => format!("({ks}: {v}, zz: 1)"),
+            };
+            let (hk, hk2, rm) = if c.build == 4 {
+                (format!("map.has-key((o: $m), o, {kp})"), format!("map-has-key((o: $m), o, {kp})"), format!("length(map.get(map.deep-remove((o: $m), o, {kp}), o))"))
+            } else {
+                (format!("map.has-key($m, {kp})"), format!("map-has-key($m, {kp})"), format!("length(map.remove($m, {kp}))"))
+            };
+            let src = format!(
+                "{PRELUDE}$m: {build};\na{{h: {hk}; hg: {hk2}; g: inspect(map.get($m, {kp})); l: length($m); k: length(map.keys($m)); r: {rm}; s: inspect(map.get(map.set($m, {kp}, 5), {kp})); n: length(map.set($m, {kp}, 5))}}\n"
+            );
+            let d = match compile_decls(&src) {
+                Ok(d) => d,
+                Err(v) => return v,
+            };
+            let want_g = match v.as_str() {
+                "(null null)" => "null null",
+                o => o,
+            };
+            let obs: Vec<String> = ["h", "hg", "g", "l", "k", "r", "s", "n"].iter().map(|k| get(&d, k).to_string()).collect();
+            let want = ["true", "true", want_g, "2", "2", "1", "5", "2"];
+            if obs.iter().map(String::as_str).collect::<Vec<_>>() != want {
+                return Verdict::fail(format!("map {build}, probe key {kp}: observed h,hg,g,l,k,r,s,n = {obs:?}, expected {want:?}"));
+            }
+            Verdict::pass(&obs)
+        },
+    );
+
     ck.finish()
 }
